@@ -39,6 +39,10 @@ func (s *SimpleFragmenter) Fragment(orig []byte, ot TermLocations) []*Fragment {
 	maxbegin := 0
 OUTER:
 	for currTermIndex, termLocation := range ot {
+		if !termLocation.inBounds(len(orig)) {
+			// skip locations which do not fall inside the text
+			continue
+		}
 		// start with this
 		// it should be the highest scoring fragment with this term first
 		start := termLocation.Start
@@ -79,6 +83,9 @@ OUTER:
 		// find the end of the last term in this fragment
 		minend := end
 		for _, innerTermLocation := range ot[currTermIndex:] {
+			if !innerTermLocation.inBounds(len(orig)) {
+				continue
+			}
 			if innerTermLocation.End > end {
 				break
 			}
